@@ -166,7 +166,7 @@ class Sim:
         self.v = self.v + ov
 
     def setvalue(self, how, par):
-        if how == 'scale':
+        if how in ('scale', 'inplace'):
             self.v = [F(par) * y for y in self.v]
         elif how == 'shift':
             self.v = [y + F(par) for y in self.v]
@@ -229,6 +229,9 @@ def rnd_point(rng, w, wide=True):
     """a wavelength at, between or outside the samples"""
     if not w:
         return F(rng.randint(1, 40), 4)
+    if rng.random() < 0.07:
+        # a near-tie: a few parts in 1e7 away from a sample, on either side
+        return rng.choice(w) * (1 + rng.choice([1, -1]) * F(1, 2 ** 23))
     t = rng.random()
     if t < 0.45:
         return rng.choice(w)
@@ -263,13 +266,15 @@ def gen_query(rng, sim, pool):
         c = rnd_grid(rng, rng.randint(2, 5), start=rnd_point(rng, w, wide=False), uniform=rng.random() < 0.5)
         c = [x if x > 0 else F(1, 4) for x in c]
         q = {'k': 'bin', 'c': fs(c), 'rule': 'trapz' if rng.random() < 0.55 else 'simps',
-             'ends': 'symmetric' if rng.random() < 0.5 else 'inside', 'pp': rng.random() < 0.65, 'form': rng.randrange(2)}
+             'ends': 'symmetric' if rng.random() < 0.5 else 'inside', 'pp': rng.random() < 0.65, 'form': rng.randrange(2),
+             'flag': rng.randrange(3)}
         pool.append(q)
         return dict(q)
     if t < 0.93 or not sim.vu:
         u = rng.random()
         if u < 0.5:
-            return {'k': 'setvalue', 'how': 'scale', 'par': str(rng.choice([F(2), F(3), F(1, 2), F(-1), F(4), F(3, 2)]))}
+            return {'k': 'setvalue', 'how': 'scale' if rng.random() < 0.7 else 'inplace',
+                    'par': str(rng.choice([F(2), F(3), F(1, 2), F(-1), F(4), F(3, 2)]))}
         if u < 0.8:
             return {'k': 'setvalue', 'how': 'shift', 'par': str(F(rng.randint(-2, 3)))}
         return {'k': 'setvalue', 'how': 'reverse', 'par': None}
@@ -324,12 +329,15 @@ def gen_op(rng, sim, budget):
             start = (w[-1] if w else F(1)) + rng.choice(sim.gaps)
         else:
             start = rnd_point(rng, w)
+            if start.denominator > 64:
+                start = F(round(start * 4), 4)      # near-ties are for bounds, not for new samples (ppm-wide gaps would make
+                                                    # the 'min' sampling of a later pad ask for millions of samples)
             if sim.gaps is IGAPS:
                 start = F(math.floor(start))
             if start <= 0:
                 start = F(1, 4) if sim.gaps is GAPS else F(1)
         ow = rnd_grid(rng, n, start=start, gaps=sim.gaps)
-        return {'k': 'append', 'w': fs(ow), 'v': fs(rnd_values(rng, n)), 'copy': rng.random() < 0.15}
+        return {'k': 'append', 'w': fs(ow), 'v': fs(rnd_values(rng, n)), 'copy': rng.random() < 0.15, 'flag': rng.randrange(3)}
     # resample
     u = rng.random()
     if u < 0.2 or budget <= 0:
@@ -340,6 +348,8 @@ def gen_op(rng, sim, budget):
         return {'k': 'resample', 'g': fs(pts)}
     if u < 0.29:
         st0 = rnd_point(rng, w) if w else None
+        if st0 is not None and st0.denominator > 64:
+            st0 = F(round(st0 * 4), 4)
         if st0 is not None and sim.gaps is IGAPS:
             st0 = F(max(1, math.floor(st0)))
         bad = rnd_grid(rng, rng.randint(1, 5), start=st0, gaps=sim.gaps)
@@ -424,12 +434,26 @@ INT_DTYPES = ['int', 'uint8', 'uint16', 'uint32', 'uint64']
 
 def pick_dtype(rng, c):
     """the representation of the wave/value arrays and of the array arguments of the editing calls: every dtype must
-    behave like its float64 twin"""
+    behave like its float64 twin; or (float64 only) a power-of-two rescaling of all wavelengths / values, or numpy
+    subclasses as containers"""
     if all_int(c['w'] + c['v']) and all(F(x) >= 0 for x in c['w'] + c['v']):
         if rng.random() < 0.85:
             c['dtype'] = rng.choice(INT_DTYPES)
+            return
     elif rng.random() < 0.08:
         c['dtype'] = 'float32'
+        return
+    pick_presentation(rng, c)
+
+
+def pick_presentation(rng, c):
+    u = rng.random()
+    if u < 0.14:
+        c['ws'] = rng.choice([-30, -30, -20, -33, 10])      # 2**-30 ~ 1e-9: nanometre numbers held in metres
+        if rng.random() < 0.6:
+            c['vs'] = rng.choice([-40, -30, 40, 20])
+    elif u < 0.28:
+        c['box'] = rng.choice(['masked', 'masked', 'masked0', 'sub'])
 
 
 def bad_start(rng, w, v):
@@ -488,8 +512,10 @@ def gen_integrate(rng):
     if a is not None and b is not None and F(a) > F(b) and rng.random() < 0.85:
         a, b = b, a
     mid = str(rng.choice(w)) if w else None
-    return {'op': 'integrate', 'w': fs(w), 'v': fs(v), 'u': fs(u), 'ca': str(F(rng.randint(-3, 4), rng.choice([1, 2]))),
-            'cb': str(F(rng.randint(-3, 4))), 'a': a, 'b': b, 'mid': mid, 'rule': 'trapz' if rng.random() < 0.7 else 'simps'}
+    c = {'op': 'integrate', 'w': fs(w), 'v': fs(v), 'u': fs(u), 'ca': str(F(rng.randint(-3, 4), rng.choice([1, 2]))),
+         'cb': str(F(rng.randint(-3, 4))), 'a': a, 'b': b, 'mid': mid, 'rule': 'trapz' if rng.random() < 0.7 else 'simps'}
+    pick_presentation(rng, c)
+    return c
 
 
 def gen_bin(rng):
@@ -515,8 +541,83 @@ def gen_bin(rng):
     if rng.random() < 0.04:
         c = c[:1]
     c = [x if x > 0 else F(1, 4) for x in c]
-    return {'op': 'bin', 'w': fs(w), 'v': fs(v), 'c': fs(c), 'rule': 'trapz' if rng.random() < 0.55 else 'simps',
-            'ends': 'symmetric' if rng.random() < 0.5 else 'inside', 'pp': rng.random() < 0.5}
+    c = {'op': 'bin', 'w': fs(w), 'v': fs(v), 'c': fs(c), 'rule': 'trapz' if rng.random() < 0.55 else 'simps',
+         'ends': 'symmetric' if rng.random() < 0.5 else 'inside', 'pp': rng.random() < 0.5}
+    pick_presentation(rng, c)
+    return c
+
+
+def g_edges(c, ends):
+    h = [(b - a) / 2 for a, b in zip(c, c[1:])]
+    mid = [a + e for a, e in zip(c, h)]
+    return ([c[0] - h[0]] if ends == 'symmetric' else [c[0]]) + mid + ([c[-1] + h[-1]] if ends == 'symmetric' else [c[-1]])
+
+
+def g_nodes(c, ends):
+    h = [(b - a) / 2 for a, b in zip(c, c[1:])]
+    x = []
+    for i, a in enumerate(c):
+        x.append(a)
+        if i < len(h):
+            x.append(a + h[i])
+    if ends == 'symmetric':
+        return [c[0] - h[0]] + x + [c[-1] + h[-1]]
+    x = [x[0], x[0] + (x[1] - x[0]) / 2] + x[1:]
+    return x[:-1] + [x[-1] + (x[-2] - x[-1]) / 2, x[-1]]
+
+
+def same_span_grid(rng, x):
+    """another strictly increasing grid with the SAME number of points and the SAME first and last point"""
+    lo, hi, n = min(x), max(x), len(x)
+    for _ in range(50):
+        inner = sorted({lo + (hi - lo) * F(rng.randint(1, 63), 64) for _ in range(n - 2)})
+        if len(inner) == n - 2 and [lo] + inner + [hi] != sorted(x):
+            return [lo] + inner + [hi]
+    return None
+
+
+def gen_coincide(rng):
+    """requests that coincide with the stored grid in COUNT and END POINTS only: whatever the code may key a shortcut
+    on (length, first, last, span), the answer must come from interpolation at the points actually asked for"""
+    t = rng.random()
+    nc = rng.randint(2, 5)
+    c = rnd_grid(rng, nc, uniform=rng.random() < 0.3)
+    rule = 'trapz' if rng.random() < 0.6 else 'simps'
+    ends = 'symmetric' if rng.random() < 0.5 else 'inside'
+    x = g_edges(c, ends) if rule == 'trapz' else g_nodes(c, ends)
+    if min(x) <= 0:
+        sh = F(1) - min(x)
+        c, x = [a + sh for a in c], [a + sh for a in x]
+    w = same_span_grid(rng, x)
+    if w is None:
+        return gen_bin(rng)
+    v = rnd_values(rng, len(w), nonneg=rng.random() < 0.6)
+    if t < 0.45:
+        cs = {'op': 'bin', 'w': fs(w), 'v': fs(v), 'c': fs(c), 'rule': rule, 'ends': ends, 'pp': rng.random() < 0.4}
+    elif t < 0.6:
+        cs = {'op': 'sample', 'w': fs(w), 'v': fs(v), 'x': fs(sorted(x))}
+    else:
+        g = same_span_grid(rng, w) or sorted(x)
+        ops = [{'k': 'resample', 'g': fs(g)}] if rng.random() < 0.5 else \
+            [{'k': 'bin', 'c': fs(c), 'rule': rule, 'ends': ends, 'pp': rng.random() < 0.4, 'form': 0},
+             {'k': 'resample', 'g': fs(g)}, {'k': 'integrate', 'a': None, 'b': None, 'rule': 'trapz', 'form': 0}]
+        cs = {'op': 'seq', 'w': fs(w), 'v': fs(v), 'ops': ops}
+    return cs
+
+
+def gen_large(rng, n):
+    """a long table (sizes behind typical thresholds, not divisible by round block counts): a few calls only"""
+    w = rnd_grid(rng, n, start=F(rng.randint(1, 8)), uniform=rng.random() < 0.5)
+    v = [F(rng.randint(0, 7)) for _ in range(n)]
+    a, b = w[n // 5], w[-(n // 7)]
+    ops = [{'k': 'integrate', 'a': str(a), 'b': str(b), 'rule': 'trapz', 'form': 0},
+           {'k': 'crop', 'a': str(a), 'b': str(b + F(1, 8))},
+           {'k': 'trim', 'tol': '1/8'},
+           {'k': 'integrate', 'a': None, 'b': None, 'rule': 'simps', 'form': 0},
+           {'k': 'bin', 'c': fs(rnd_grid(rng, 6, start=w[n // 3], uniform=True)), 'rule': 'trapz', 'ends': 'inside', 'pp': True, 'form': 0},
+           {'k': 'pad', 'e0': str(a - 3), 'e1': str(b + 5), 'samp': None, 'mode': 'edge', 'form': 0},
+           {'k': 'resample', 'g': fs(w[n // 4: n // 4 + 40])}]
+    return {'op': 'seq', 'w': fs(w), 'v': fs(v), 'ops': ops}
 
 
 def gen_ends(rng):
@@ -539,6 +640,10 @@ def generate(rng, tier):
         yield gen_seq(rng, maxlen)
     for _ in range(200 if quick else 3000):
         yield gen_history(rng)
+    for _ in range(120 if quick else 2500):
+        yield gen_coincide(rng)
+    for n in ([1025, 1201] if quick else [1025, 1201, 2049, 3001, 4097 + 3]):
+        yield gen_large(rng, n)
     for _ in range(350 if quick else 10000):
         yield gen_integrate(rng)
     for _ in range(400 if quick else 12000):
@@ -631,6 +736,10 @@ def encode(c):
             return None      # unsigned / float32 representations: judged by the oracle and against the float64 twin
         out = [1] + enc_lq(c['w']) + enc_lq(c['v']) + [len(c['ops'])]
         impl = None
+        if len(c['w']) <= 6000:
+            probe = run_impl_cached(c)
+            if any(len(st['w']) > 20000 for st in probe.get('steps', [])):
+                return None      # a pad asked for an enormous number of samples: left to the oracle
         for k, o in enumerate(c['ops']):
             if o['k'] in ('setvalue', 'to'):
                 # the new values are whatever the assignment / conversion produced on the live object (the conversion
@@ -671,6 +780,8 @@ def decode(c, ints):
             elif t == 2:
                 st['ans'] = rd.opt(lambda: rd.lst(rd.q))
                 st['bins'] = True
+            alt = rd.z()
+            st['alt'] = C.ERRNAMES[alt] if alt else None
             return st
         return {'steps': rd.lst(outcome)}
     if op == 'integrate':
@@ -704,9 +815,62 @@ def typed(xs, dtype):
     return b if np.array_equal(b.astype(float), a) else a
 
 
+# ---- per-case presentation of the numbers to the implementation (the model and the oracle always see the plain case):
+#   ws / vs : every wavelength is multiplied by 2**ws and every value by 2**vs on the way in and divided again on the
+#             way out. Powers of two scale every float operation exactly, so the answers must be bit-identical: any
+#             absolute threshold in the code (np.isclose's atol, an eps used as a length) breaks this scale covariance
+#   box     : arrays handed over as numpy subclasses (masked arrays with and without masked entries, a subclass that
+#             carries metadata): legal array_like input, must behave like the plain ndarray of the same data, and the
+#             caller's arrays must be left alone
+_CTX = {'ws': 0, 'vs': 0, 'box': None, 'held': []}
+
+
+class TaggedArray(np.ndarray):
+    """an ndarray subclass carrying metadata"""
+    def __new__(cls, a, tag='spectral'):
+        obj = np.asarray(a).view(cls)
+        obj.tag = tag
+        return obj
+
+    def __array_finalize__(self, obj):
+        self.tag = getattr(obj, 'tag', None)
+
+
+def set_ctx(c):
+    _CTX.update(ws=int(c.get('ws', 0)), vs=int(c.get('vs', 0)), box=c.get('box'), held=[])
+
+
+def SW(x):
+    return x if _CTX['ws'] == 0 or x is None else x * 2.0 ** _CTX['ws']
+
+
+def SV(x):
+    return x if _CTX['vs'] == 0 or x is None else x * 2.0 ** _CTX['vs']
+
+
+def boxed(a):
+    kind = _CTX['box']
+    if kind is None:
+        return a
+    if kind == 'masked':
+        n = a.size
+        mask = np.array([(i % 3 == 1) if n >= 2 else True for i in range(n)], dtype=bool)
+        b = np.ma.MaskedArray(a.copy(), mask=mask)
+    elif kind == 'masked0':
+        b = np.ma.masked_invalid(a.copy())
+    else:
+        b = TaggedArray(a.copy())
+    _CTX['held'].append((b, np.array(np.ma.getdata(b), copy=True), np.array(np.ma.getmaskarray(b), copy=True)))
+    return b
+
+
+def caller_arrays_intact():
+    return all(np.array_equal(np.ma.getdata(b), d) and np.array_equal(np.ma.getmaskarray(b), m) for b, d, m in _CTX['held'])
+
+
 def mk(w, v, vu=None, dtype=None):
     lentil = C.import_lentil()
-    return lentil.radiometry.Spectrum(typed(w, dtype), typed(v, dtype), valueunit=vu)
+    return lentil.radiometry.Spectrum(boxed(SW(typed(w, dtype))), boxed(SV(typed(v, dtype))), valueunit=vu)
 
 
 def num(x, form):
@@ -722,32 +886,37 @@ def num(x, form):
 def query(s, o):
     if o['k'] == 'integrate':
         f = o.get('form', 0)
-        return float(s.integrate(None if o['a'] is None else num(o['a'], f), None if o['b'] is None else num(o['b'], f),
-                                 method=o['rule']))
-    c = arr(o['c']) if o.get('form', 0) == 0 else fl(o['c'])
-    return [float(x) for x in s.bin(c, interp_method=o['rule'], ends=o['ends'], preserve_power=o['pp'])]
+        r = s.integrate(None if o['a'] is None else SW(num(o['a'], f)), None if o['b'] is None else SW(num(o['b'], f)),
+                        method=o['rule'])
+        return float(r) / 2.0 ** (_CTX['ws'] + _CTX['vs'])
+    c = SW(arr(o['c'])) if o.get('form', 0) == 0 else [SW(x) for x in fl(o['c'])]
+    pp = o['pp']
+    pp = np.bool_(pp) if o.get('flag') == 1 else int(pp) if o.get('flag') == 2 else pp      # truthy is as good as True
+    return [float(x) / 2.0 ** (_CTX['ws'] + _CTX['vs'])
+            for x in np.ma.getdata(s.bin(c, interp_method=o['rule'], ends=o['ends'], preserve_power=pp))]
 
 
 def state(s):
-    return {'w': [float(x) for x in np.asarray(s.wave).ravel()], 'v': [float(x) for x in np.asarray(s.value).ravel()]}
+    return {'w': [float(x) / 2.0 ** _CTX['ws'] for x in np.asarray(s.wave).ravel()],
+            'v': [float(x) / 2.0 ** _CTX['vs'] for x in np.asarray(s.value).ravel()]}
 
 
 def call_op(s, o, dtype=None):
     k = o['k']
     if k == 'crop':
-        return s.crop(float(F(o['a'])), float(F(o['b'])))
+        return s.crop(SW(float(F(o['a']))), SW(float(F(o['b']))))
     if k == 'trim':
         return s.trim(float(F(o['tol'])))
     if k == 'pad':
         kw = {}
         if o['samp'] is not None:
-            kw['sampling'] = float(F(o['samp']))
+            kw['sampling'] = SW(float(F(o['samp'])))
         m = o['mode']
         if m == 'edge':
             kw['mode'] = 'edge'
         elif m != 'default':
-            kw['values'] = float(F(m[1])) if m[0] == 'scalar' else (float(F(m[1])), float(F(m[2])))
-        ends = [float(F(o['e0'])), float(F(o['e1']))]
+            kw['values'] = SV(float(F(m[1]))) if m[0] == 'scalar' else (SV(float(F(m[1]))), SV(float(F(m[2]))))
+        ends = [SW(float(F(o['e0']))), SW(float(F(o['e1'])))]
         te = typed([o['e0'], o['e1']], dtype)
         if dtype is not None and te.dtype != np.float64 and np.size(s.wave) and \
                 (te.dtype.kind != 'u' or (ends[0] <= float(np.min(s.wave)) and ends[1] >= float(np.max(s.wave)))):
@@ -759,16 +928,23 @@ def call_op(s, o, dtype=None):
     if k == 'append':
         other = mk(o['w'], o['v'], dtype=dtype)
         if o.get('copy'):
-            return s.append(other, copy=True)
+            return s.append(other, copy=1 if o.get('flag') == 2 else np.True_ if o.get('flag') == 1 else True)
         return s.append(other)
     if k == 'resample':
-        return s.resample(typed(o['g'], dtype))
+        g = SW(typed(o['g'], dtype))
+        # scipy refuses masked arrays as evaluation points ('masked arrays are not supported'): a legitimate refusal,
+        # so a grid is only ever handed over as a plain or metadata-carrying array
+        return s.resample(boxed(g) if _CTX['box'] == 'sub' else g)
     if k == 'setvalue':
         old = np.asarray(s.value)
-        if o['how'] == 'scale':
+        if o['how'] == 'inplace' and old.dtype == np.float64 and old.flags.writeable and _CTX['box'] is None:
+            live = s.value
+            live *= num(o['par'], 2)          # the caller edits the array the object holds; no setter is involved
+            return None
+        if o['how'] in ('scale', 'inplace'):
             new = num(o['par'], 2) * old.astype(float) if old.dtype != np.float64 else num(o['par'], 2) * old
         elif o['how'] == 'shift':
-            new = old.astype(float) + num(o['par'], 2) if old.dtype != np.float64 else old + num(o['par'], 2)
+            new = old.astype(float) + SV(num(o['par'], 2)) if old.dtype != np.float64 else old + SV(num(o['par'], 2))
         else:
             new = old[::-1].copy()
         if old.dtype != np.float64 and new.dtype == np.float64:
@@ -777,7 +953,7 @@ def call_op(s, o, dtype=None):
             back = new.astype(old.dtype)
             if np.array_equal(back.astype(float), new) and (old.dtype.kind == 'f' or np.all(np.abs(new) <= 16)):
                 new = back
-        s.value = new
+        s.value = boxed(new)
         return None
     if k == 'to':
         return s.to(o['unit'])
@@ -790,6 +966,7 @@ def run_impl(c):
 
 def run_impl_raw(c):
     op = c['op']
+    set_ctx(c)
     with warnings.catch_warnings():
         warnings.simplefilter('ignore')
         try:
@@ -825,7 +1002,7 @@ def run_impl_raw(c):
                         fresh = {'err': type(e).__name__}
                     st['ans'], st['fresh'] = ans, fresh
                 steps.append(st)
-            res = {'steps': steps, 'init': state(mk(c['w'], c['v'], c.get('vu'), dt))}
+            res = {'steps': steps, 'init': state(mk(c['w'], c['v'], c.get('vu'), dt)), 'caller_ok': caller_arrays_intact()}
             if dt is not None:
                 # the float64 twin: same calls, float64 arrays everywhere
                 twin = run_impl_raw({k: v for k, v in c.items() if k != 'dtype'})
@@ -834,8 +1011,8 @@ def run_impl_raw(c):
         if op == 'integrate':
             def integ(sp, a, b):
                 try:
-                    return float(sp.integrate(None if a is None else float(F(a)), None if b is None else float(F(b)),
-                                              method=c['rule']))
+                    return float(sp.integrate(None if a is None else SW(float(F(a))), None if b is None else SW(float(F(b))),
+                                              method=c['rule'])) / 2.0 ** (_CTX['ws'] + _CTX['vs'])
                 except Exception as e:
                     return {'err': type(e).__name__}
             res = {'I': integ(s, c['a'], c['b'])}
@@ -852,12 +1029,14 @@ def run_impl_raw(c):
             return res
         if op == 'bin':
             try:
-                b = s.bin(arr(c['c']), interp_method=c['rule'], ends=c['ends'], preserve_power=c['pp'])
-                res = {'bins': [float(x) for x in b]}
+                sc = 2.0 ** (_CTX['ws'] + _CTX['vs'])
+                b = s.bin(SW(arr(c['c'])), interp_method=c['rule'], ends=c['ends'], preserve_power=c['pp'])
+                res = {'bins': [float(x) / sc for x in np.ma.getdata(b)]}
             except Exception as e:
                 return {'err': type(e).__name__}
             try:
-                res['raw'] = [float(x) for x in s.bin(arr(c['c']), interp_method=c['rule'], ends=c['ends'], preserve_power=False)]
+                res['raw'] = [float(x) / sc for x in np.ma.getdata(s.bin(SW(arr(c['c'])), interp_method=c['rule'], ends=c['ends'],
+                                                                         preserve_power=False))]
             except Exception as e:
                 res['raw'] = None
             res['after'] = state(s)
@@ -870,7 +1049,7 @@ def run_impl_raw(c):
                 return {'err': type(e).__name__}
         if op == 'sample':
             try:
-                return {'f': [float(x) for x in np.atleast_1d(s.sample(arr(c['x'])))]}
+                return {'f': [float(x) / 2.0 ** _CTX['vs'] for x in np.atleast_1d(np.ma.getdata(s.sample(SW(arr(c['x'])))))]}
             except Exception as e:
                 return {'err': type(e).__name__}
     raise ValueError(op)
@@ -931,7 +1110,8 @@ def compare(c, impl, model):
             if not sync and name in ('crop', 'trim', 'pad', 'append', 'resample') and \
                     ((a['err'] or None) != b['err'] or len(a['w']) != len(b['w']) or len(a['v']) != len(b['v'])):
                 return None   # outside the exact regime a rounding may flip a discrete decision: the oracle judges alone
-            if (a['err'] or None) != b['err']:
+            if (a['err'] or None) != b['err'] and not (a['err'] and b['err'] and a['err'] == b.get('alt')):
+                # (a pad refused on both sides may raise either side's class: C15 does not pin which refusal fires)
                 return f'step {k} ({name}): exception {a["err"]} vs model {b["err"]}'
             ex = sync and (name != 'resample' or interp_exact(pre['w'], pre['v']))
             m = cmp_list(a['w'], b['w'], f'step {k} ({name}) wave', ex) or cmp_list(a['v'], b['v'], f'step {k} ({name}) value', ex)
@@ -1124,6 +1304,8 @@ def oracle_seq(c, impl):
     m = oracle_twin(c, impl)
     if m:
         return m
+    if impl.get('caller_ok') is False:
+        return 'an array handed over by the caller (numpy subclass) was modified by the session'
     for k, (o, st) in enumerate(zip(c['ops'], impl['steps'])):
         name = o['k']
         if any(not math.isfinite(x) for x in st['w'] + st['v']):
@@ -1152,7 +1334,7 @@ def oracle_seq(c, impl):
                 return f'{tag}: an assignment of values moved the wavelength grid'
             if name == 'setvalue':
                 par = F(o['par']) if o['par'] is not None else None
-                exp = [par * y for y in pv] if o['how'] == 'scale' else [y + par for y in pv] if o['how'] == 'shift' else pv[::-1]
+                exp = [par * y for y in pv] if o['how'] in ('scale', 'inplace') else [y + par for y in pv] if o['how'] == 'shift' else pv[::-1]
                 if any(not close(float(y), e) for y, e in zip(v, exp)):
                     return f'{tag}: the object does not hold the assigned values'
             pw, pv = w, v
